@@ -84,6 +84,8 @@ fn set_idle(e: &mut Emu) {
 
 /// Bring a machine to the configuration and put `content` into the display memory with `w`.
 fn write_content(c: Cfg, w: Writer, content: &[u8]) -> Result<Emu, String> {
+    // files reach the loaders through assets returning short reads of a size that rotates with the content
+    let chunk = [0usize, 1, 2, 3, 7, 127, 128, 129][(content[0] as usize + content[6144] as usize + w as usize) % 8];
     let mut o = Opts::machine(m128(c));
     o.sound = false;
     o.fastload = true;
@@ -130,7 +132,7 @@ fn write_content(c: Cfg, w: Writer, content: &[u8]) -> Result<Emu, String> {
                 out_latch(&mut e, latch | 0x10);
             }
             let blk = crate::tapemodel::std_block(0xFF, content);
-            e.load_tape(Tape::Tap(VAsset::new(crate::tapemodel::tap_image(&[blk])))).map_err(|e| format!("{:?}", e))?;
+            e.load_tape(Tape::Tap(VAsset::new(crate::tapemodel::tap_image(&[blk])).chunked(chunk))).map_err(|e| format!("{:?}", e))?;
             let mut v = RegsView::default();
             v.pc = 0x0556;
             v.sp = 0xBF00;
@@ -167,14 +169,14 @@ fn write_content(c: Cfg, w: Writer, content: &[u8]) -> Result<Emu, String> {
                 Writer::SzxStored => szx(&s, &SzxOpts::default()),
                 _ => szx(&s, &SzxOpts { compressed: true, ..SzxOpts::default() }),
             };
-            let snap = if w == Writer::Sna { Snapshot::Sna(VAsset::new(file)) } else { Snapshot::Szx(VAsset::new(file)) };
+            let snap = if w == Writer::Sna { Snapshot::Sna(VAsset::new(file).chunked(chunk)) } else { Snapshot::Szx(VAsset::new(file).chunked(chunk)) };
             e.load_snapshot(snap).map_err(|e| format!("{:?}", e))?;
         }
         Writer::Scr => {
             if m128(c) {
                 out_latch(&mut e, latch);
             }
-            e.load_screen(Screen::Scr(VAsset::new(scr(content)))).map_err(|e| format!("{:?}", e))?;
+            e.load_screen(Screen::Scr(VAsset::new(scr(content)).chunked(chunk))).map_err(|e| format!("{:?}", e))?;
         }
     }
     Ok(e)
@@ -721,7 +723,7 @@ pub fn run(tier: Tier, seed: u64, replay: Option<String>) -> i32 {
     ctx.note("contents", json!(contents.len()));
     ctx.note("not_judged", json!("phase of the first FLASH swap; stores completing within +-16 T of the ULA fetch of the byte"));
     ctx.finish(
-        "contents: Latin frames (bitmap[a]=(17a+j) mod 256, attr[a]=(29a+3j) mod 256: every screen address meets every byte value over j) and 26 address-line frames; writers: LDIR, explicit CPU store loop, execute_poke, tape fast load through the ROM trap, SNA, SZX stored, SZX zlib, SCR; configurations: 48K, 128K normal screen, 128K shadow screen written through C000, bank 5 written through C000; after two unchanged frames all 49152 pixels (colour and brightness) are compared with the standard decode of the displayed bank; FLASH run lengths over 48 frames; paging bit 3 switched between frames, also after the latch is locked (the displayed bank is computed from the reference latch, not from the implementation); snapshot with both screens loaded then flipped by the program; SNA/SZX save with SP inside the display memory; beam clause on picture lines x columns {0,15,31} x store times -90..+70 T around the ULA fetch. distinct_nontrivial = (configuration, writer, content) cases",
+        "contents: Latin frames (bitmap[a]=(17a+j) mod 256, attr[a]=(29a+3j) mod 256: every screen address meets every byte value over j) and 26 address-line frames; writers: LDIR, explicit CPU store loop, execute_poke, tape fast load through the ROM trap, SNA, SZX stored, SZX zlib, SCR (files through assets returning short reads of rotating sizes {whole,1,2,3,7,127,128,129}); configurations: 48K, 128K normal screen, 128K shadow screen written through C000, bank 5 written through C000; after two unchanged frames all 49152 pixels (colour and brightness) are compared with the standard decode of the displayed bank; FLASH run lengths over 48 frames; paging bit 3 switched between frames, also after the latch is locked (the displayed bank is computed from the reference latch, not from the implementation); snapshot with both screens loaded then flipped by the program; SNA/SZX save with SP inside the display memory; beam clause on picture lines x columns {0,15,31} x store times -90..+70 T around the ULA fetch. distinct_nontrivial = (configuration, writer, content) cases",
         false,
         &["quick tier rotates contents over the non-LDIR writers (each writer sees a quarter of the contents)", "beam clause places the frame clock through the hook"],
     )
